@@ -84,4 +84,110 @@ theorem i32_unsigned_abs_lt (n : I32) (h : n.inRange = true) : (IntN.unsigned_ab
   show ((n.v.natAbs : Nat) : Int) < 2^32
   omega
 
+/-! ### IEEE equality with a literal pins the operand -/
+
+theorem f64lit_zero : f64lit 0 = F64.fin false 0 := by decide +kernel
+
+/-- IEEE-equal to a finite non-NaN double with magnitude m: same magnitude, and same sign unless m = 0 -/
+theorem f64_eq_fin_cases (a : F64) (t : Bool) (m : Nat) (h : (a ==. F64.fin t m) = true) :
+    ∃ s, a = F64.fin s m ∧ (m ≠ 0 → s = t) := by
+  rw [f64_eq_iff] at h
+  cases a with
+  | nan => simp [F64.partial_cmp] at h
+  | inf s => cases s <;> simp [F64.partial_cmp] at h
+  | fin s n =>
+    have h2 : (F64.fin s n).toInt = (F64.fin t m).toInt := by
+      simp only [F64.partial_cmp] at h
+      by_cases c1 : (F64.fin s n).toInt < (F64.fin t m).toInt
+      · simp [c1] at h
+      · by_cases c2 : (F64.fin s n).toInt = (F64.fin t m).toInt
+        · exact c2
+        · simp [c1, c2] at h
+    cases s <;> cases t <;> simp [F64.toInt] at h2
+    · have : n = m := by omega
+      exact ⟨false, by rw [this], fun _ => rfl⟩
+    · have : n = 0 ∧ m = 0 := by omega
+      exact ⟨false, by rw [this.1, this.2], fun h => absurd this.2 h⟩
+    · have : n = 0 ∧ m = 0 := by omega
+      exact ⟨true, by rw [this.1, this.2], fun h => absurd this.2 h⟩
+    · have : n = m := by omega
+      exact ⟨true, by rw [this], fun _ => rfl⟩
+
+theorem f64_eq_zero_cases (a : F64) (h : (a ==. f64lit 0) = true) : a = F64.fin false 0 ∨ a = F64.fin true 0 := by
+  rw [f64lit_zero] at h
+  obtain ⟨s, hs, _⟩ := f64_eq_fin_cases a false 0 h
+  cases s
+  · exact Or.inl hs
+  · exact Or.inr hs
+
+theorem f64lit_one : f64lit 0x3ff0000000000000 = F64.fin false (2^1074) := by decide +kernel
+
+theorem f64_eq_one (a : F64) (h : (a ==. f64lit 0x3ff0000000000000) = true) : a = F64.one := by
+  rw [f64lit_one] at h
+  obtain ⟨s, hs, hsign⟩ := f64_eq_fin_cases a false (2^1074) h
+  rw [hs, hsign (Nat.ne_of_gt (Nat.two_pow_pos 1074))]
+  rfl
+
+theorem f64_ge_ge (a : F64) (m : Nat) (hm : 0 < m) (h : (a >=. F64.fin false m) = true) :
+    (a <=. F64.fin true m) = false := by
+  cases a with
+  | nan => rfl
+  | inf s =>
+    cases s
+    · rfl
+    · simp [RPartialOrd.ge, RPartialOrd.partial_cmp, F64.partial_cmp] at h
+  | fin s n =>
+    revert h
+    show (match F64.partial_cmp (F64.fin s n) (F64.fin false m) with
+          | some .Greater => true | some .Equal => true | _ => false) = true →
+         (match F64.partial_cmp (F64.fin s n) (F64.fin true m) with
+          | some .Less => true | some .Equal => true | _ => false) = false
+    simp only [F64.partial_cmp]
+    cases s <;> simp only [F64.toInt]
+    · intro _
+      have c1 : ¬ ((n : Int) < -(m : Int)) := by omega
+      have c2 : ¬ ((n : Int) = -(m : Int)) := by omega
+      simp [c1, c2]
+    · intro h
+      have c1 : (-(n : Int) < (m : Int)) := by omega
+      simp [c1] at h
+
+/-- the TwoFloat-vs-f64 comparison of the generated code -/
+theorem tf_pcmp_f64 (x : TwoFloat) (c : F64) :
+    base.impl_PartialOrd_f64_for_TwoFloat.partial_cmp x c
+      = if F64.partial_cmp x.hi c = some .Equal then F64.partial_cmp x.lo (f64lit 0) else F64.partial_cmp x.hi c := by
+  unfold base.impl_PartialOrd_f64_for_TwoFloat.partial_cmp
+  simp [RPartialOrd.partial_cmp]
+
+theorem tf_eq_f64 (x : TwoFloat) (c : F64) :
+    base.impl_PartialEq_f64_for_TwoFloat.eq x c = ((x.hi ==. c) && (x.lo ==. f64lit 0)) := rfl
+
+theorem tf_le_zero_imp_ne_one (x : TwoFloat)
+    (h : ROrd.isLe (base.impl_PartialOrd_f64_for_TwoFloat.partial_cmp x (f64lit 0)) = true) :
+    base.impl_PartialEq_f64_for_TwoFloat.eq x (f64lit 0x3ff0000000000000) = false := by
+  cases hq : base.impl_PartialEq_f64_for_TwoFloat.eq x (f64lit 0x3ff0000000000000)
+  · rfl
+  · exfalso
+    rw [tf_eq_f64, Bool.and_eq_true] at hq
+    have h1 := f64_eq_one _ hq.1
+    rw [tf_pcmp_f64, h1] at h
+    revert h
+    rw [show F64.partial_cmp F64.one (f64lit 0) = some .Greater by decide +kernel]
+    simp [ROrd.isLe]
+
+theorem tf_le_neg_one_imp_ne_zero (x : TwoFloat)
+    (h : ROrd.isLe (base.impl_PartialOrd_f64_for_TwoFloat.partial_cmp x (F64.neg (f64lit 0x3ff0000000000000))) = true) :
+    base.impl_PartialEq_f64_for_TwoFloat.eq x (f64lit 0) = false := by
+  cases hq : base.impl_PartialEq_f64_for_TwoFloat.eq x (f64lit 0)
+  · rfl
+  · exfalso
+    rw [tf_eq_f64, Bool.and_eq_true] at hq
+    rw [tf_pcmp_f64] at h
+    revert h
+    rcases f64_eq_zero_cases _ hq.1 with h1 | h1 <;> rw [h1]
+    · rw [show F64.partial_cmp (F64.fin false 0) (F64.neg (f64lit 0x3ff0000000000000)) = some .Greater by decide +kernel]
+      simp [ROrd.isLe]
+    · rw [show F64.partial_cmp (F64.fin true 0) (F64.neg (f64lit 0x3ff0000000000000)) = some .Greater by decide +kernel]
+      simp [ROrd.isLe]
+
 end Ident
